@@ -18,6 +18,7 @@ package generic
 
 import (
 	"fmt"
+	"io"
 	// "unicode/utf8"
 	"unsafe"
 
@@ -57,9 +58,16 @@ func (self Node) Len() (int, error) {
 func (self Node) len() (int, error) {
 	switch self.t {
 	case thrift.LIST, thrift.SET:
+		// NOTICE: l == 0 is a node whose data was not scanned (see Options.NotScanParentNode)
+		if self.v == nil || (self.l > 0 && self.l < 5) {
+			return 0, errNode(meta.ErrRead, "", io.ErrShortBuffer)
+		}
 		b := rt.BytesFrom(unsafe.Pointer(uintptr(self.v)+uintptr(1)), 4, 4)
 		return int(thrift.BinaryEncoding{}.DecodeInt32(b)), nil
 	case thrift.MAP:
+		if self.v == nil || (self.l > 0 && self.l < 6) {
+			return 0, errNode(meta.ErrRead, "", io.ErrShortBuffer)
+		}
 		b := rt.BytesFrom(unsafe.Pointer(uintptr(self.v)+uintptr(2)), 4, 4)
 		return int(thrift.BinaryEncoding{}.DecodeInt32(b)), nil
 	default:
